@@ -101,9 +101,36 @@ def run(ctx):
         rng = [gh.argv(b, 0) for b, tt in gh.calls(r'IntoIterator>::into_iter$|IntoIterator::into_iter$')]
         okr = bool(rng) and all(isinstance(peel(q, unwraps=False), tuple) and peel(q, unwraps=False)[0] == 'agg' and [const_val(z) for z in peel(q, unwraps=False)[2]] == [0, 4] for q in rng)
         return (len(inits) == 1 and len(divs) >= 1 and okr), (inits[0] if inits else None)
+    from vlib.layout import byte_layout
+
+    def le32_group(its):
+        """the items (outside any loop, 4 bytes in all) are the four little-endian bytes of one value X, however they are spelled
+        (shift-and-mask pushes, / and % by powers of 256, to_le_bytes ...): decided on the bit provenance; -> X or None"""
+        cands = sorted({x for it_ in its for x in walk(it_['value']) if isinstance(x, tuple) and x and x[0] in ('bin', 'call', 'cast', 'field') and const_val(x) is None},
+                       key=lambda x: -len(short(x)))
+        for X in cands[:40]:
+            try:
+                bl = byte_layout(gh, its, source=lambda e, X=X: ('x', 64) if e == X else None)
+            except Exception:
+                continue
+            if [c for c, _, _ in bl] == [('field', 'x', k) for k in range(4)]:
+                return X
+        return None
     seq = []
+    pending = []
     for it in items:
         v = strip(it['value'])
+        if pending or (not it['in_loop'] and it['width'] in (1, 2) and not (isinstance(v, tuple) and v[0] == 'bytes')):
+            pending.append(it)
+            tot = sum(p_['width'] or 99 for p_ in pending)
+            if tot == 4:
+                X = le32_group(pending)
+                seq.append(('len', X is not None, X, pending[0]) if X is not None else ('?', False, v, it))
+                pending = []
+            elif tot > 4:
+                seq.append(('?', False, v, it))
+                pending = []
+            continue
         if isinstance(v, tuple) and v[0] == 'bytes' and bytes.fromhex(v[1]) == b'Gh0st':
             seq.append(('magic', True, None, it))
         elif it['op'] == 'push' and it['in_loop']:
